@@ -225,6 +225,9 @@ def _resolve_core(s, tenv):
         return TD('obj', cls=s, cfg={})
     if s == 'Deriv':
         return TD('enum', name='Deriv')
+    if s == 'Executor':
+        # template type parameter of evaluate(): its default argument
+        return TD('obj', cls='SerialExecutor', cfg={})
     if s in TPARAM_DEFAULTS and tenv.cls is not None and TPARAM_DEFAULTS[s] in tenv.cls.aliases:
         # template type parameter of a member function template, instantiated by its only call sites with this alias
         return resolve(TPARAM_DEFAULTS[s], tenv)
